@@ -8,7 +8,8 @@
    model directive by host, that the listener assigns the bound target, and that v-models is the
    same-order sequence of v-model attributes. *)
 From VJ Require Import Model.Str Model.Json Model.Ast Model.State Model.Util Model.Directive
-  Model.Lower Model.Visitor Spec.JsxText Spec.OutViews Spec.Site Spec.SiteCheck Lemmas.SiteProofs.
+  Model.Lower Model.Visitor Spec.JsxText Spec.OutViews Spec.Site Spec.SiteCheck Lemmas.SiteProofs
+  Lemmas.AttrsProofs Lemmas.DirsProofs Lemmas.ContribsProofs.
 
 Definition C05_full_statement : Prop :=
   forall E el s, filter (starts_with (s_ "C05:")) (check_site E 40 el (fst (lower_el E el s))) = [].
@@ -58,6 +59,28 @@ Theorem C05_vmodels_sequence : forall attrs s,
   fst (decouple_attrs attrs s) = splice_vmodels attrs false.
 Proof. exact decouple_attrs_spec. Qed.
 Print Assumptions C05_vmodels_sequence.
+
+(* v-model attributes compose with the rest of the element: they satisfy the per-attribute
+   conditions of the element-level theorems C04_element_bindings / C01_element_props_no_merge *)
+Theorem C05_composes_on_components : forall E tag attrs name value d,
+  spec_directive_name name = Some d ->
+  sq "html" (dn_name d) = false -> sq "text" (dn_name d) = false -> sq "model" (dn_name d) = true ->
+  static_arg (dp_arg (spec_directive_parts d value)) ->
+  user_value (dflt_value (dp_value (spec_directive_parts d value))) = true ->
+  match name with IdName _ | JNs (IdName _) (IdName _) => True | _ => False end ->
+  dir_ok E true tag attrs (JAttr name value) /\ contrib_ok E true tag attrs (JAttr name value).
+Proof. intros. split; [eapply dir_ok_vmodel_component|eapply contrib_ok_vmodel_component]; eassumption. Qed.
+Print Assumptions C05_composes_on_components.
+
+Theorem C05_composes_on_elements : forall E tag attrs name value d,
+  spec_directive_name name = Some d ->
+  sq "html" (dn_name d) = false -> sq "text" (dn_name d) = false -> sq "model" (dn_name d) = true ->
+  static_arg (dp_arg (spec_directive_parts d value)) ->
+  arg_not_void (dp_arg (spec_directive_parts d value)) ->
+  match name with IdName _ | JNs (IdName _) (IdName _) => True | _ => False end ->
+  dir_ok E false tag attrs (JAttr name value) /\ contrib_ok E false tag attrs (JAttr name value).
+Proof. intros. split; [eapply dir_ok_vmodel_element|eapply contrib_ok_vmodel_element]; eassumption. Qed.
+Print Assumptions C05_composes_on_elements.
 
 (* the known finding, with its witness `<C v-model={[m, dyn]} />`: the key lacks the colon *)
 Theorem C05_computed_arg_refuted : forall E tag all s,
